@@ -304,6 +304,34 @@ def r07_10(ck: Check, rule: str = "R07.10") -> None:
         else:
             ck.ok(rule, construct, json.dumps(want.get("reader") or want.get("union"))[:100], "")
     ck.expect_count(rule, "message classes", n, 12)
+    # a constant default of a constructor parameter that is written as raw bytes has the width the reader consumes
+    ex = extractor(ck)
+    for cls in message_classes(ck):
+        c = ex.codecs.get(cls)
+        init = ck.repo.functions.get(cls + ".__init__")
+        if c is None or init is None or not c.reader or not c.writer:
+            continue
+        fields = [p for p in c.writer if p[0] != "const"]
+        reads = [p for p in c.reader if p[0] not in ("const", "ignored", "lenient")]
+        if len(fields) != len(reads):
+            continue
+        for w_, r_ in zip(fields, reads):
+            attr = w_[-1]
+            param = next((k for k, v in (c.ctor or {}).items() if v == attr), attr)
+            d = init.defaults().get(param)
+            if d is None or r_[0] != "raw" or not isinstance(r_[1], int):
+                continue
+            try:
+                val = ck.repo.fold(d, init.module, init, {})
+            except Exception:   # noqa
+                continue
+            if isinstance(val, bytes):
+                construct = "%s: the default of `%s` has the %d bytes the reader consumes" % (short(cls), param, r_[1])
+                if len(val) == r_[1]:
+                    ck.ok(rule, construct, "", init.loc)
+                else:
+                    ck.violated(rule, construct, "the default is %d bytes long: a message built with it is written with %d bytes in that field and read "
+                                "back with %d — it does not survive the round trip" % (len(val), len(val), r_[1]), init.loc)
 
 
 def r07_5(ck: Check) -> None:
